@@ -110,7 +110,11 @@ POOL = [("K+", "K-"), ("pi0", "pi0"), ("D0", "anti-D0"), ("anti-B_s0", "B_s0"), 
         ("K-", "K+"), ("gamma", "gamma"), ("D*+", "D*-"), ("e-", "e+")]
 PDGPOOL = [("K(S)0", "K(S)0"), ("pi+", "pi-"), ("D(s)+", "D(s)-"), ("K*(892)0", "K*(892)~0"), ("Unknown", "ChargeConj(Unknown)"),
            ("gamma", "gamma")]
-N_COMBOS = len(POOL) * len(POOL)           # first two names vary, next two fixed by rotation
+import os as _os
+
+THOROUGH = _os.environ.get("VERIF_TIER") == "thorough"
+# quick: the first two names vary, the next two follow by rotation; thorough: three names vary
+N_COMBOS = len(POOL) ** (3 if THOROUGH else 2)
 N_MULTISET = 2 * N_COMBOS
 
 
@@ -118,8 +122,8 @@ def _names(sel: int):
     pdg = sel >= N_COMBOS
     sel %= N_COMBOS
     pool = PDGPOOL if pdg else POOL
-    a, b = sel % len(POOL), sel // len(POOL)
-    idx = [a % len(pool), b % len(pool), (a + 3) % len(pool), (a + b + 5) % len(pool)]
+    a, b, c = sel % len(POOL), (sel // len(POOL)) % len(POOL), sel // (len(POOL) ** 2)
+    idx = [a % len(pool), b % len(pool), ((a + 3) if not THOROUGH else c) % len(pool), (a + b + c + 5) % len(pool)]
     return pdg, [pool[i] for i in idx]
 
 
